@@ -323,3 +323,23 @@ MUTANTS += [
     dict(id="c07-classmethod-becomes-function", property="C07", edits=[(D, "        return classmethod(jaxtyped(fn.__func__, typechecker=typechecker))", "        return staticmethod(jaxtyped(fn.__func__, typechecker=typechecker))")]),
     dict(id="c07-lambda-syntaxerror", property="C07", edits=[(D, "    if name.isidentifier() and not keyword.iskeyword(name):\n        def_name = name\n    else:\n        def_name = _gensym(param_names, prefix=\"fn\")", "    def_name = name")]),
 ]
+
+CFG = "jaxtyping/_config.py"
+MUTANTS += [
+    # ---- C19
+    dict(id="c19-inverted-flag", property="C19", edits=[(D, "                    config.jaxtyping_disable\n                    or getattr(fn", "                    not config.jaxtyping_disable\n                    or getattr(fn")]),
+    dict(id="c19-flag-read-at-decoration", property="C19", edits=[(D, "            wrapped_fn_holder = []  # Avoids introducing a reference cycle.", "            wrapped_fn_holder = []  # Avoids introducing a reference cycle.\n            _disabled_at_decoration = config.jaxtyping_disable"), (D, "                    config.jaxtyping_disable\n                    or getattr(fn", "                    _disabled_at_decoration\n                    or getattr(fn")]),
+    dict(id="c19-str2bool-truthy", property="C19", edits=[(CFG, """        else:
+            raise ValueError(error)
+    else:
+        raise ValueError(error)""", """        else:
+            return bool(value)
+    else:
+        raise ValueError(error)""")]),
+    dict(id="c19-no-lower", property="C19", edits=[(CFG, 'if value.lower() in ("0", "false"):', 'if value in ("0", "false", "False"):')]),
+    # (c19-no-type-check-on-fn-ignored: equivalent - ft.wraps copies __no_type_check__ from fn.__dict__ onto the wrapper)
+    dict(id="c19-no-type-check-on-wrapper-ignored", property="C19", edits=[(D, '                    or getattr(wrapped_fn_holder[0](), "__no_type_check__", False)\n', "")]),
+    dict(id="c19-disabled-still-pushes-context", property="C19", edits=[(D, "                ):\n                    return fn(*args, **kwargs)\n\n                # Raise bind-time", "                ):\n                    push_shape_memo({})\n                    try:\n                        return fn(*args, **kwargs)\n                    finally:\n                        pop_shape_memo()\n\n                # Raise bind-time")]),
+    dict(id="c19-dataclass-wrapped-only-when-enabled", property="C19", edits=[(D, "        if dataclasses.is_dataclass(fn) and typechecker is not None:", "        if dataclasses.is_dataclass(fn) and typechecker is not None and not config.jaxtyping_disable:")]),
+    dict(id="c19-nonbool-accepted", property="C19", edits=[(CFG, "    else:\n        raise ValueError(error)\n\n\nclass", "    else:\n        return bool(value)\n\n\nclass")]),
+]
